@@ -55,6 +55,15 @@ CHECKS["C15"] = dict(
     note="Skips the documented exception (`q empty` -> `%v empty`). Trusts the printer. Known findings: three classes in known_findings.json.",
     ref="DESIGN.md §6 P-C15")
 
+CHECKS["C14"] = dict(
+    technique="runtime monitoring: differential monitor over parse-tree output of systematically re-spelled programs",
+    text="Each generated program is pretty-printed canonically and with every single-occurrence flip of every documented token class "
+         "(keyword case, not/NOT/!, or/OR/|OR|, =/:=, quotes, .n/[n], leading this., indentation, blank lines, trailing spaces, line breaks in "
+         "lists/filters, # comments) plus random combinations; `parse-tree --print-json` of variant and canonical text must be the same AST "
+         "(locations removed), sampled verdicts must agree; type blocks are compared with their desugaring and file-level clauses with `rule default` by verdict.",
+    note="A variant that fails to parse is a violation. Documented restrictions (reference ends its line) are never varied. Leading `this` is normalised in the AST and checked by verdict.",
+    ref="DESIGN.md §6 P-C14")
+
 PENDING = {}
 
 
